@@ -509,3 +509,91 @@ Proof.
     + reflexivity.
   - step' rt_int. ctest. step' rt_schema. reflexivity.
 Qed.
+
+(* ------------------------------------------------------------------ ERROR *)
+Definition err_supported (e : err) : bool :=
+  match e with
+  | ErrCasWriteUnknown _ _ _ => false
+  | ErrWriteTimeout _ _ _ _ (Some _) => false
+  | _ => true
+  end.
+
+Lemma rt_write_type : forall wt rest, wf_wt wt = true -> rd_write_type (enc_string (wt_name wt) ++ rest) = Some (wt, rest).
+Proof.
+  intros wt rest H. unfold wf_wt in H.
+  assert (C : wt = 0 \/ wt = 1 \/ wt = 2 \/ wt = 3 \/ wt = 4 \/ wt = 5 \/ wt = 6 \/ wt = 7) by lia.
+  repeat (destruct C as [C|C]; [subst wt; vm_compute; reflexivity|]). subst wt; vm_compute; reflexivity.
+Qed.
+
+Lemma rt_bool : forall d rest, wf_byte d = true -> rd_bool (d :: rest) = Some (negb (d =? 0), rest).
+Proof.
+  intros d rest H. unfold wf_byte in H. unfold rd_bool, rd_byte, pbind, ret.
+  f_equal. f_equal. f_equal. destruct (d <? 128) eqn:E; [reflexivity|].
+  destruct (d =? 0) eqn:E0, (d - 256 =? 0) eqn:E1; try reflexivity; lia.
+Qed.
+
+Lemma rt_inet_addr : forall a rest, wf_addr a = true -> rd_inet_addr (enc_inetaddr a ++ rest) = Some (a, rest).
+Proof.
+  intros a rest H. unfold wf_addr in H. unfold rd_inet_addr, enc_inetaddr. cbn [app].
+  unfold pbind at 1. unfold rd_byte.
+  assert (S : (if len a <? 128 then len a else len a - 256) = len a) by (destruct (len a <? 128) eqn:E; lia).
+  rewrite S. erewrite pbind_some by apply rt_n. rewrite H, Z.eqb_refl. reflexivity.
+Qed.
+
+Lemma rt_inet : forall a p rest, wf_addr a = true -> wf_int p = true -> rd_inet (enc_inet a p ++ rest) = Some ((a, p), rest).
+Proof.
+  intros. unfold rd_inet, enc_inet. rewrite <- app_assoc. step' rt_inet_addr. step' rt_int. reflexivity.
+Qed.
+
+Lemma rt_failures : forall pv f rest, wf_failures pv f = true ->
+  rd_failures pv (enc_failures f ++ rest) = Some (exact_failures f, rest).
+Proof.
+  intros pv f rest W. unfold rd_failures. change (uses_error_code_map pv) with (spec_reason_map pv).
+  destruct f as [n|m]; cbn [wf_failures enc_failures exact_failures] in *; bsplit.
+  - destruct (spec_reason_map pv); [discriminate|]. step' rt_int. reflexivity.
+  - match goal with H : spec_reason_map pv = true |- _ => rewrite H end.
+    unfold rd_error_code_map. rewrite <- app_assoc. step' rt_int.
+    erewrite pbind_some.
+    2:{ apply (rt_count _ _ (fun c => c)). intros [a c] r Hin. cbn [fst snd]. rewrite <- app_assoc.
+        match goal with H : forallb _ m = true |- _ => pose proof (forallb_In _ _ _ H Hin) as Wp end.
+        cbn [fst snd] in Wp. bsplit. step' rt_inet_addr. step' rt_short. reflexivity. }
+    rewrite map_id. pnorm. rewrite dict_of_nodup by assumption. reflexivity.
+Qed.
+
+Lemma simple_code_class : forall c, existsb (Z.eqb c) simple_codes = true ->
+  error_class c = spec_class c /\ wf_int c = true /\ rd_error_info = rd_error_info /\
+  (forall pv, rd_error_info pv (error_class c) = ret EiNone).
+Proof.
+  intros c H. cbn in H.
+  repeat (apply orb_prop in H; destruct H as [H|H]; [apply Z.eqb_eq in H; subst c; repeat split; reflexivity|]).
+  discriminate.
+Qed.
+
+Ltac ecls :=
+  repeat (match goal with
+          | |- context [error_class ?a] =>
+            let v := eval vm_compute in (error_class a) in progress change (error_class a) with v
+          end); cbv beta iota delta [rd_error_info].
+
+Lemma rt_error : forall pv e m rest, wf_string m = true -> wf_err pv e = true -> err_supported e = true ->
+  (code <- rd_int ;; m <- rd_string ;; i <- rd_error_info pv (error_class code) ;; ret (BError (error_class code) code m i))
+    (enc_int (err_code e) ++ enc_string m ++ enc_err e ++ rest)
+  = Some (BError (spec_class (err_code e)) (err_code e) m (exact_einfo e), rest).
+Proof.
+  intros pv e m rest Wm W S.
+  destruct e; cbn [wf_err err_code enc_err exact_einfo err_supported] in *; try discriminate; bsplit;
+    repeat rewrite <- app_assoc.
+  - destruct (simple_code_class _ W) as [C1 [C2 [_ C3]]]. step' rt_int. step' rt_string. rewrite C3. pnorm. rewrite C1. reflexivity.
+  - step' rt_int. step' rt_string. ecls.
+    step' rt_short. step' rt_int. step' rt_int. reflexivity.
+  - destruct contentions; [discriminate|]. step' rt_int. step' rt_string. ecls.
+    step' rt_short. step' rt_int. step' rt_int. rewrite app_nil_l. step' rt_write_type. reflexivity.
+  - step' rt_int. step' rt_string. ecls. step' rt_short. step' rt_int. step' rt_int. cbn [app]. step' rt_bool. reflexivity.
+  - step' rt_int. step' rt_string. ecls. step' rt_short. step' rt_int. step' rt_int. step' rt_failures.
+    cbn [app]. step' rt_bool. reflexivity.
+  - step' rt_int. step' rt_string. ecls. step' rt_string. step' rt_string. step' rt_stringlist. reflexivity.
+  - step' rt_int. step' rt_string. ecls. step' rt_short. step' rt_int. step' rt_int. step' rt_failures.
+    step' rt_write_type. reflexivity.
+  - step' rt_int. step' rt_string. ecls. step' rt_string. step' rt_string. reflexivity.
+  - step' rt_int. step' rt_string. ecls. step' rt_bstring. reflexivity.
+Qed.
